@@ -123,6 +123,7 @@ bytes are not a valid frame (external codec, a parameter) -/
 abbrev Decomp := Bytes → Option Bytes → Option Bytes
 
 def slice (f : Bytes) (off n : Nat) : Option Bytes :=
+  if n = 0 then some [] else            -- no bytes are trivially present
   if off + n ≤ f.length then some ((f.drop off).take n) else none
 
 def zeros (n : Nat) : Bytes := List.replicate n 0
